@@ -290,6 +290,29 @@ theorem lineLoop_ends (cfg : Cfg K) (y : K) (row : Nat) :
           · rw [h1]; exact List.mem_cons_self ..
           · exact List.mem_cons_of_mem _ h1
 
+/-- on a list sorted by crossing abscissa every emitted segment has its left end first -/
+theorem lineLoop_ordered (cfg : Cfg K) (y : K) (row : Nat) :
+    ∀ (l : List (Seg K)) (inside : Bool) (px : K) (pt : P K),
+      l.Pairwise (fun e f => solveX e y ≤ solveX f y) →
+      (inside = true → ∀ e ∈ l, px ≤ solveX e y) →
+      ∀ s ∈ lineLoop cfg y row l inside px pt, s.xa ≤ s.xb
+  | [], inside, px, pt, _, _, s, hs => by simp [lineLoop] at hs
+  | e :: es, inside, px, pt, hsort, hpx, s, hs => by
+    rw [List.pairwise_cons] at hsort
+    by_cases h : e.b.y ≤ y
+    · simp only [lineLoop, h, if_true] at hs
+      exact lineLoop_ordered cfg y row es inside px pt hsort.2
+        (fun hi e' he' => hpx hi e' (List.mem_cons_of_mem _ he')) s hs
+    · cases inside with
+      | false =>
+        simp only [lineLoop, h, if_false, Bool.false_eq_true] at hs
+        exact lineLoop_ordered cfg y row es true _ _ hsort.2 (fun _ e' he' => hsort.1 e' he') s hs
+      | true =>
+        simp only [lineLoop, h, if_false, if_true, List.mem_cons] at hs
+        rcases hs with rfl | hs
+        · exact hpx rfl e (List.mem_cons_self ..)
+        · exact lineLoop_ordered cfg y row es false _ _ hsort.2 (fun hi => by simp at hi) s hs
+
 /-! ## The sweep invariant of `Hatcher::hatch` -/
 
 variable {σ : Type}
@@ -468,14 +491,26 @@ theorem initSt_inv (cfg : Cfg K) (edges : List (Seg K)) (b : σ) (y0 off0 : K) :
   · intro _
     exact ⟨by simp, [], by simp [initSt], by simp⟩
 
+theorem hatch_nil (cfg : Cfg K) (B : Builder σ K) (fuel : Nat) (b0 : σ) :
+    hatch cfg B fuel [] b0 = some (emptySt b0) := rfl
+
+theorem hatch_cons (cfg : Cfg K) (B : Builder σ K) (fuel : Nat) (e0 : Seg K) (es : List (Seg K))
+    (b0 : σ) :
+    hatch cfg B fuel (e0 :: es) b0 = some (finish cfg B fuel
+      (hatchEdges cfg B fuel (e0 :: es)
+        (initSt (B.nextOff b0 0).2 (e0.a.y + (B.nextOff b0 0).1) (B.nextOff b0 0).1))) := rfl
+
 /-- every row recorded by `hatch` on a sorted edge list satisfies `RowInv` -/
 theorem hatch_rows (cfg : Cfg K) (B : Builder σ K) (fuel : Nat) (edges : List (Seg K)) (b0 : σ)
     (hsorted : edges.Pairwise (fun e f => e.a.y ≤ f.a.y)) (st : St σ K)
     (h : hatch cfg B fuel edges b0 = some st) : ∀ r ∈ st.rows, RowInv cfg edges r := by
   cases edges with
-  | nil => simp [hatch] at h
+  | nil =>
+    rw [hatch_nil, Option.some.injEq] at h
+    subst h
+    simp [emptySt]
   | cons e0 es =>
-    simp only [hatch, Option.some.injEq] at h
+    rw [hatch_cons, Option.some.injEq] at h
     subst h
     obtain ⟨done', hinv, hdone⟩ := hatchEdges_inv cfg B fuel (e0 :: es) [] _ (by simp) hsorted
       (initSt_inv cfg (e0 :: es) (B.nextOff b0 0).2 (e0.a.y + (B.nextOff b0 0).1) (B.nextOff b0 0).1)
@@ -768,7 +803,7 @@ theorem hatchEdges_off (cfg : Cfg K) (B : Builder σ K) (fuel : Nat) (y00 : K) :
 
 theorem hatch_off (cfg : Cfg K) (B : Builder σ K) (fuel : Nat) (e0 : Seg K) (es : List (Seg K))
     (b0 : σ) (st : St σ K) (h : hatch cfg B fuel (e0 :: es) b0 = some st) : OffInv e0.a.y st := by
-  simp only [hatch, Option.some.injEq] at h
+  rw [hatch_cons, Option.some.injEq] at h
   subst h
   have h0 : OffInv e0.a.y
       (initSt (B.nextOff b0 0).2 (e0.a.y + (B.nextOff b0 0).1) (B.nextOff b0 0).1 : St σ K) := by
@@ -838,9 +873,12 @@ theorem hatch_runs_to_ymax (cfg : Cfg K) (B : Builder σ K) (fuel : Nat) (edges 
     (b0 : σ) (st : St σ K) (h : hatch cfg B fuel edges b0 = some st)
     (hs : st.stop = false) (hf : st.fuelOut = false) : ∀ e ∈ edges, e.b.y ≤ st.y := by
   cases edges with
-  | nil => simp [hatch] at h
+  | nil =>
+    rw [hatch_nil, Option.some.injEq] at h
+    subst h
+    simp [emptySt]
   | cons e0 es =>
-    simp only [hatch, Option.some.injEq] at h
+    rw [hatch_cons, Option.some.injEq] at h
     subst h
     simp only [finish] at hs hf ⊢
     split at hs
